@@ -39,7 +39,7 @@ let root_handler op _ver args obs =
          | RPanic -> Some "constructor must panic on these arguments"
          | RZero -> Some "radicand 0 must yield the zero number"
          | _ ->
-           if ctor_check_fast k num den (nat_of_int depth) e ds ended then None
+           if (if depth > 200 then ctor_check_last k num den (nat_of_int depth) e ds ended else ctor_check_fast k num den (nat_of_int depth) e ds ended) then None
            else Some "digits/exponent are not the exact truncated root (ctor_check rejects)")
       with _ -> Some "malformed observation")
     | "Z" :: rest ->
@@ -52,8 +52,8 @@ let root_handler op _ver args obs =
   { model = (if obs_cmp == obs then model else model); tags; spec; known = None }, obs_cmp
 
 (* Deep<ctor> num den depth: radicands of a thousand bits and more, hundreds of digits deep.  Only the statement is
-   evaluated on the implementation's digits (ctor_check_fast: proved equal to the sound checker ctor_check); the
-   model's own digit extraction is not run (it would take half a minute per case). *)
+   evaluated on the implementation's digits, at their full length (ctor_check_last: proved sound in CheckLast.v -
+   the last prefix decides all the shorter ones); the model's own digit extraction is not run. *)
 let deep_handler op _ver args obs =
   let a = mk args in
   let num = next_z a in let den = next_z a in let depth = next_int a in
@@ -66,7 +66,7 @@ let deep_handler op _ver args obs =
       let e = next_z o in
       let ds = next_list o next_z in
       let ended = (next o = "1") in
-      if ctor_check_fast k num den (nat_of_int depth) e ds ended then ok_v obs ["deep-statement-only"]
+      if ctor_check_last k num den (nat_of_int depth) e ds ended then ok_v obs ["deep-statement-only"]
       else { model = ["the-exact-truncated-root"]; tags = []; spec = Some "digits/exponent are not the exact truncated root (ctor_check rejects)"; known = None }
     with _ -> { model = []; tags = []; spec = Some "malformed observation"; known = None })
   | _ -> { model = ["N"]; tags = []; spec = Some "a positive radicand must yield a non-zero number"; known = None }
